@@ -122,10 +122,90 @@ def run_interleaved(n1, s1, n2, s2, rng, node_mod):
         node_mod.RpcNode.request = saved
 
 
+ENTRIES = ('request', 'get', 'post', 'put', 'delete')
+
+
+def run_wire(n, script, entries, rng, node_mod):
+    """Drive a multi-node client through its public entry points (request/get/post/put/delete) with the HTTP
+    layer itself (pytezos.rpc.node.requests / sleep) replaced: the target node is read off the URL that is
+    actually requested.  Same observation tuple as run_impl."""
+    import json as _json
+    uris = [f'http://node{k}.test:8732' for k in range(n)]
+    urls, state = [], {}
+
+    class FakeRequests:
+        exceptions = requests.exceptions
+        Response = requests.Response
+
+        @staticmethod
+        def request(**kw):
+            urls.append(str(kw.get('url')))
+            return state['f']()
+
+    saved = (node_mod.requests, node_mod.sleep)
+    node_mod.requests = FakeRequests
+    node_mod.sleep = lambda d: None
+    events, contacted, contacted_uris = [], [], []
+    try:
+        mn = node_mod.RpcMultiNode(list(uris))
+        for i, (sym, entry) in enumerate(zip(script, entries)):
+            del urls[:]
+            tok = {'tok': i}
+            exc = None
+            if sym in 'SR':
+                r = requests.Response()
+                r.headers['content-type'] = 'application/json'
+                if sym == 'S':
+                    r.status_code = 200
+                    r._content = _json.dumps(tok).encode()
+                else:
+                    r.status_code = rng.choice([500, 500, 400, 404, 401])
+                    r._content = _json.dumps([{'kind': 'permanent', 'id': 'node.test', 'tok': i}]).encode()
+                state['f'] = lambda r=r: r
+            else:
+                exc = make_exc(sym, rng, node_mod)
+
+                def boom(exc=exc):
+                    raise exc
+                state['f'] = boom
+            path = f'/chains/main/blocks/head/{i}'
+            if entry == 'request':
+                ok, val = lib.call(mn.request, rng.choice(['GET', 'POST', 'PUT', 'DELETE']), path, timeout=3)
+            elif entry == 'post':
+                ok, val = lib.call(mn.post, path, json={'x': i})
+            else:
+                ok, val = lib.call(getattr(mn, entry), path)
+            hit_u, hits = [], []
+            for u in urls:
+                k = [j for j, base in enumerate(uris) if u.startswith(base + '/')]
+                hit_u.append(uris[k[0]] if k else u)
+                hits.append(k[0] if k else BAD)
+            if sym == 'S':
+                good = ok and (val == tok or (isinstance(val, requests.Response) and val.status_code == 200))
+            elif sym == 'R':
+                good = (not ok) and isinstance(val, node_mod.RpcError)
+            else:
+                good = (not ok) and val is exc
+            if len(hits) == 1 and good:
+                ev = ('Sent', hits[0], sym)
+            elif not hits and not ok and isinstance(val, AssertionError):
+                ev = ('AssertFailed',)
+            else:
+                ev = ('Other', hits, f'{type(val).__name__}: {val}'[:120] if not ok else 'returned ' + repr(val)[:80])
+            events.append(ev)
+            contacted.append(hits)
+            contacted_uris.append(hit_u)
+        v = getattr(mn, '_next_i', None)
+        final = v if isinstance(v, int) and 0 <= v < BAD else BAD
+        return events, final, contacted, contacted_uris, uris
+    finally:
+        node_mod.requests, node_mod.sleep = saved
+
+
 def spec_oracle(n, script, obs):
     """(B) the property itself on the implementation's observation: request i reaches node i mod n
     (exactly one node), whatever happened before."""
-    events, _final, contacted, contacted_uris, uris = obs
+    events, _final, contacted, contacted_uris, uris = obs[:5]
     distinct = len(set(uris)) == len(uris)
     for i, hits in enumerate(contacted):
         # what is visible on the wire is the address; with distinct addresses that is the node position itself
@@ -162,7 +242,7 @@ def scripts(ctx):
     if ctx.thorough:
         plans = [('SR', 12), ('SRC', 9), ('SRCO', 6)]
     else:
-        plans = [('SR', 10), ('SC', 8), ('SRCO', 5)]
+        plans = [('SR', 9), ('SC', 7), ('SRCO', 5)]
     seen = set()
     for alpha, maxlen in plans:
         for ln in range(0, maxlen + 1):
@@ -181,7 +261,8 @@ def run(ctx: lib.Ctx) -> None:
     ctx.rule = ('exhaustive: every outcome script over {Success, RpcError} up to length 10, {Success, transport error} up to 8 and '
                 '{Success, RpcError, transport error, other exception} up to length 5 (thorough: 2 outcomes up to 12, 3 up to 9, 4 up to 6) '
                 'for 1..4 nodes with distinct addresses, per-node RpcNode.request stubbed (node identified by object position); the same over 8 node lists '
-                'that repeat an address (e.g. a,a,b / a,b,a,c) with scripts up to length 8 (thorough 11); plus random scripts of length 11..60 for 1..7 nodes and pairs of '
+                'that repeat an address (e.g. a,a,b / a,b,a,c) with scripts up to length 8 (thorough 11); the client driven through every public entry point '
+                '(request/get/post/put/delete, mixed, uniform, and one odd call among requests) with pytezos.rpc.node.requests stubbed and the target read off the URL; plus random scripts of length 11..60 for 1..7 nodes and pairs of '
                 'clients used alternately. non-trivial = at least one failing outcome before the last request and n >= 2; '
                 'distinct = distinct (n, script)')
     cases, meta = [], []
@@ -210,6 +291,29 @@ def run(ctx: lib.Ctx) -> None:
             for ln in range(n, maxlen + 1):
                 for tup in itertools.product(alpha, repeat=ln):
                     add(n, tup, run_impl(n, tup, ctx.rng, node_mod, pat), f'repeated-address:n{n}')
+    # every public entry point, HTTP layer stubbed, target read off the requested URL
+    def add_wire(n, tup, entries, kind):
+        obs = run_wire(n, tup, entries, ctx.rng, node_mod)
+        script = tuple(tup)
+        ctx.case((n, script, tuple(entries)), nontrivial=n >= 2 and len(script) > 1, kind=kind,
+                 sample={'nodes': n, 'script': ''.join(script), 'entry_points': list(entries), 'urls': obs[3], 'final_next_i': obs[1]})
+        ctx.dist.update(f'entry:{e}' for e in entries)
+        cases.append((coq_case(n, script), coq_obs(obs)))
+        meta.append((n, script, obs + (list(entries),)))
+
+    for n in (1, 2, 3, 4):
+        for ln in range(1, ctx.n(4, 6) + 1):                       # mixed entry points
+            for tup in itertools.product('SRCO', repeat=ln):
+                add_wire(n, tup, [ctx.rng.choice(ENTRIES) for _ in tup], 'wire:mixed')
+    for entry in ENTRIES:                                         # one entry point throughout, and one odd call among plain requests
+        for n in (2, 3, 4):
+            for ln in range(1, ctx.n(5, 8) + 1):
+                for tup in itertools.product('SR', repeat=ln):
+                    add_wire(n, tup, [entry] * ln, f'wire:all-{entry}')
+            for ln in range(2, ctx.n(5, 7) + 1):
+                for k in range(ln):
+                    tup = tuple(ctx.rng.choice('SRC') for _ in range(ln))
+                    add_wire(n, tup, ['request'] * k + [entry] + ['request'] * (ln - k - 1), f'wire:one-{entry}')
     # random long scripts, more nodes
     for _ in range(ctx.n(150, 1500)):
         n = ctx.rng.choice([1, 2, 3, 4, 5, 7])
@@ -240,13 +344,15 @@ def run(ctx: lib.Ctx) -> None:
     for at, _ln, idx, why in fails[:2]:
         n, script, obs = meta[idx]
         short = list(script[:at + 1])
+        entry_points = obs[5][:at + 1] if len(obs) > 5 else ['request'] * (at + 1)
         ctx.violation(f'rotation violated: {why}',
-                      {'nodes': n, 'uris': obs[4], 'script': short, 'legend': 'S success, R RpcError, C requests ConnectionError/Timeout, O other exception',
+                      {'nodes': n, 'uris': obs[4], 'script': short, 'entry_points': entry_points, 'legend': 'S success, R RpcError, C requests ConnectionError/Timeout, O other exception',
                        'contacted_positions': obs[2][:at + 1], 'contacted_uris': obs[3][:at + 1], 'events': [list(e) for e in obs[0][:at + 1]],
-                       'repro': f"RpcMultiNode({obs[4]!r}) with RpcNode.request stubbed to produce the outcomes {short!r} in turn "
-                                f"(harness/c28.py run_impl); compare the address contacted by call i with uris[i % {n}]"})
+                       'repro': f"c = RpcMultiNode({obs[4]!r}); call c.<entry_points[i]>(path) for i = 0..{at} with the HTTP layer "
+                                f"(pytezos.rpc.node.requests.request, or RpcNode.request when every entry point is 'request') stubbed to produce the "
+                                f"outcomes {short!r} in turn (harness/c28.py run_wire / run_impl); compare the address requested by call i with uris[i % {n}]"})
     if not fails and bad:
-        n, script, obs = meta[bad[0]]
+        n, script, obs = meta[bad[0]][:3]
         ctx.violation('implementation no longer corresponds to the model the theorems are about',
                       {'correspondence': 'C28/RpcMultiNode.request vs Client.MultiNode.run', 'nodes': n, 'uris': obs[4], 'script': list(script),
                        'observed': {'events': [list(e) for e in obs[0]], 'final_next_i': obs[1]},
